@@ -44,13 +44,22 @@ def alive(pid):
 def run_case(ctx, cmd, timeout, expect_status, expect_rc, expect_out=None, expect_err=None, label=""):
     from lithium.interestingness import crashes, hangs, timed_run
 
-    for mode in ("pipe", "file"):
+    for mode in ("pipe", "file", "file-dotted"):
         prefix = None
         if mode == "file":
             prefix = str(loaders.scratch() / f"c18-{os.getpid()}")
-        rd = timed_run.timed_run(cmd, timeout, prefix)
+        elif mode == "file-dotted":
+            # a log prefix whose last component has dots (a testcase name, a version number)
+            prefix = str(loaders.scratch() / f"c18.case-1.2.{os.getpid()}")
         case = dict(cmd=cmd[:3] + (["..."] if len(cmd) > 3 else []), timeout=timeout, mode=mode, label=label)
         ctx.evaluations += 1
+        try:
+            rd = timed_run.timed_run(cmd, timeout, prefix)
+        except Exception as exc:  # pylint: disable=broad-except
+            ctx.fail("timed-run-raises", f"{label}/{mode}: timed_run raised {type(exc).__name__}: {exc}", case)
+            continue
+        if prefix is not None and (str(rd.out) != prefix + "-out.txt" or str(rd.err) != prefix + "-err.txt"):
+            ctx.fail("log-names", f"{label}/{mode}: output files {rd.out} / {rd.err} for the prefix {prefix}", case)
         status = rd.status.name
         timed_out = status == "TIMEOUT"
         rc = rd.return_code
@@ -81,8 +90,12 @@ def run_case(ctx, cmd, timeout, expect_status, expect_rc, expect_out=None, expec
     for mod, want in ((crashes, expect_status == "CRASH"), (hangs, expect_status == "TIMEOUT")):
         if timeout > 1 and expect_status == "TIMEOUT":
             continue
-        got = mod.interesting(args, None)
         ctx.evaluations += 1
+        try:
+            got = mod.interesting(args, None)
+        except Exception as exc:  # pylint: disable=broad-except
+            ctx.fail("verdict-raises", f"{label}: {mod.__name__.split('.')[-1]} raised {type(exc).__name__}: {exc}", dict(cmd=cmd[:3], label=label))
+            continue
         if bool(got) != want:
             ctx.fail("verdict", f"{label}: {mod.__name__.split('.')[-1]} returned {got} for status {expect_status}",
                      dict(cmd=cmd[:3], label=label))
